@@ -26,6 +26,13 @@ def main():
         level, coverage, assumptions = mod.run(v, tier, seed)
         v.write_evidence(level, coverage, assumptions)
     except vlib.MachineryError as ex:
+        if v.violations:
+            # the property was already seen broken on the real code before a later stage of the machinery failed (typically the same
+            # change makes the real code run away in another stage): the violations stand
+            print("NOTE property=%s a later stage failed after %d violation(s) had been reported: %s" % (pid, len(v.violations), str(ex)[:1500]))
+            v.write_evidence("other", {"evaluations": len(v.violations), "distinct_nontrivial": len(v.violations), "rule": "run aborted by a machinery failure after violations had been found; only the violations are recorded",
+                                       "samples": [str(x)[:400] for x in v.violations[:3]], "aborted": True}, [])
+            return 1
         print("ERROR property=%s machinery failure: %s" % (pid, str(ex)[:6000])); return 2
     except Exception:
         print("ERROR property=%s unexpected exception in the check:" % pid); traceback.print_exc(); return 2
